@@ -35,7 +35,7 @@ OPS_YAML = apis.MIXIN_YAML.replace("    get: '/v1/{{name=operations/*}}'\n",
                                    "    get: '/v1/{{name=operations/*}}'\n    additional_bindings:\n    - get: '/v1/{{name=projects/*/operations/*}}'\n")
 
 
-def build(transport='grpc+rest', isolated=None):
+def build(transport='grpc+rest', isolated=None, minimal_imports=False):
     """isolated=(response option, metadata option): a library whose service has exactly that one LRO method (same files), so that
     no other method provides the imports its code needs."""
     fb = file('acme/lro/v1/types_b.proto', P, messages=[message('ResB', [field('b', 1, 'string'), field('n', 2, 'int32')])])
@@ -60,7 +60,14 @@ def build(transport='grpc+rest', isolated=None):
     fo.dependency.extend(std)
     fz = file('acme/lro/v1/types_z.proto', P, messages=[message('vCluster', [field('nodes', 1, 'int32'), field('label', 2, 'string')])])
     fz.dependency.extend(std)
-    main.dependency.extend(std + [fb.name])
+    if minimal_imports:
+        # wave 7: the service's file imports only what its *descriptors* need (annotations, client, operations and types_b);
+        # empty.proto / struct.proto are then named by the operation_info strings alone, as in a typical Delete* LRO
+        main.dependency.extend([n for n in std if n in ('google/api/annotations.proto', 'google/api/client.proto',
+                                                        'google/longrunning/operations.proto')] + [fb.name])
+        assert len(main.dependency) == 4, list(main.dependency)
+    else:
+        main.dependency.extend(std + [fb.name])
     req = request([fb, fc, fo, main, fz], f'transport={transport},autogen-snippets=false,service-yaml=@svc.yaml@')
     desc.gate(req)
     return req, {'svc.yaml': OPS_YAML.format(service=f'{P}.Lro')}, cells
@@ -127,12 +134,16 @@ def make_jobs(ctx, only=None):
                              _kind='drive', _client=vid, _cells=part))
     # every type option once as the only response type and once as the only metadata type of a one-method service
     iso = [(t, 'empty') for t in TYPE_OPTS] + [('empty', t) for t in TYPE_OPTS if t != 'empty'] + [('rel/not-imported', 'rel/operation-file')]
-    for r_, m_ in iso:
-        cid = f'resp={r_}|meta={m_}|isolated'
+    iso = [(r_, m_, False) for r_, m_ in iso] + [('empty', 'rel/svc-file', True), ('rel/svc-file', 'empty', True), ('struct', 'rel/imported', True),
+                                                 ('rel/not-imported', 'struct', True), ('empty', 'fq/not-imported', True)]
+    for r_, m_, minimal in iso:
+        cid = f'resp={r_}|meta={m_}|isolated' + ('|minimal-imports' if minimal else '')
         if only and (only.get('client') != 'sync+isolated' or cid not in (only.get('cells') or [cid])):
             continue
-        ireq, iof, icells = build(isolated=(r_, m_))
-        jobs.append(dict(id=f'lro/isolated/{r_}/{m_}', req=ireq.SerializeToString(), opt_files=iof, probe='mc.probes.lro',
+        ireq, iof, icells = build(isolated=(r_, m_), minimal_imports=minimal)
+        if minimal:
+            icells = [dict(c, id=c['id'] + '|minimal-imports') for c in icells]
+        jobs.append(dict(id=f'lro/isolated/{r_}/{m_}' + ('/minimal-imports' if minimal else ''), req=ireq.SerializeToString(), opt_files=iof, probe='mc.probes.lro',
                          probe_args=dict(package=names.import_package(P), proto_package=P, cells=icells, client='sync', max_k=1, seed=ctx.seed),
                          _kind='drive', _client='sync+isolated', _cells=icells))
     if not only:
